@@ -20,7 +20,9 @@ from statham.schema.validation import (
 )
 
 
-RESERVED_PROPERTIES = dir(object) + list(keyword.kwlist) + ["_dict"]
+RESERVED_PROPERTIES = (
+    dir(object) + list(keyword.kwlist) + ["_dict", "__dict__", "__weakref__"]
+)
 
 
 class ObjectClassDict(dict):
